@@ -24,6 +24,8 @@ comparison operators:
   * samplers/{Uniform,Gaussian,ObstacleBased,BridgeTest,MaximizeClearance,MinimumClearance}ValidStateSampler.cpp
     and DiscreteMotionValidator::checkMotion(s1, s2, lastValid) (used by ObstacleBased)
   * base/src/SpaceInformation.cpp searchValidNearby (both overloads)
+  * spaces/constraint/src/ProjectedStateSpace.cpp ProjectedStateSampler, AtlasStateSpace.cpp AtlasStateSampler: the order
+    "project, then enforceBounds" (`projectedSample`; the projection itself is a parameter)
 
 Abstractions:
   * the RNG is a parameter: `Rng.u k` is the k-th `uniform01()` result, `Rng.g k` the k-th `gaussian01()`
@@ -166,6 +168,23 @@ def satisfiesBounds : Space α → OmplModel.St α → Bool
   | .klein, s => rvSat [Num.ofNat 0] [Num.pi] (St.vals (St.hd s)) && so2Sat (St.ang (St.hd (St.tl s)))
   | .sphere _, s => so2Sat (St.ang (St.hd s)) && rvSat [Num.ofNat 0] [Num.pi] (St.vals (St.hd (St.tl s)))
   | .wrap sp, s => satisfiesBounds sp s
+
+/-! ### samplers of the constrained spaces (spaces/constraint/src/ProjectedStateSpace.cpp, AtlasStateSpace.cpp)
+
+`ProjectedStateSampler::sampleUniform / sampleUniformNear / sampleGaussian`:
+`WrapperStateSampler::sample*(state); constraint_->project(state); space_->enforceBounds(state);` — and
+`AtlasStateSampler` (AtlasStateSpace, TangentBundleStateSpace) ends every method with `space_->enforceBounds(state)` after
+the chart projection `psi`.  The projection (Newton iterations on the user's constraint) is NOT modelled: it is an arbitrary
+function, a recorded answer in the lock-step.  What is modelled is the ORDER: the clamp has the last word. -/
+
+/-- as coded: project, then `enforceBounds` (of the constrained space = of the ambient space) -/
+def projectedSample (sp : Space α) (project : OmplModel.St α → OmplModel.St α) (ambient : OmplModel.St α) :
+    OmplModel.St α := enforceBounds sp (project ambient)
+
+/-- seeded change s6 (not the code): clamp first, project last (kept for the witness
+`projected_sampler_clamp_first_fails`) -/
+def projectedSampleClampFirst (sp : Space α) (project : OmplModel.St α → OmplModel.St α) (ambient : OmplModel.St α) :
+    OmplModel.St α := project (enforceBounds sp ambient)
 
 /-! ### the RNG as a parameter -/
 
